@@ -17,6 +17,17 @@ type Crash struct{ At string }
 // ErrInjected is the cause of every injected store failure.
 var ErrInjected = errors.New("injected store failure")
 
+// ErrInjectedTemp is an injected failure that calls itself temporary (as
+// network errors do); errors.Is(ErrInjectedTemp, ErrInjected) holds.
+var ErrInjectedTemp error = tempFailure{}
+
+type tempFailure struct{}
+
+func (tempFailure) Error() string        { return "injected store failure (temporary)" }
+func (tempFailure) Temporary() bool      { return true }
+func (tempFailure) Timeout() bool        { return false }
+func (tempFailure) Is(target error) bool { return target == ErrInjected }
+
 // Action tells the wrapper what to do at one store operation.
 type Action struct {
 	Err         error // fail the operation with this error (before reaching the inner store)
